@@ -290,6 +290,50 @@ def _scope_bindings(scope: ast.AST) -> List[str]:
     return [x for x in out if x not in free]
 
 
+def _loop_local_names(scope: ast.AST) -> set:
+    """Names of a function scope that only ever live inside `for` loops that bind them as their target: each such loop
+    is then its own little scope (two loops may share a spelling, or not — the program is the same)."""
+    if not isinstance(scope, (ast.FunctionDef, ast.AsyncFunctionDef)):
+        return set()
+    stores, loads, for_stores = {}, {}, {}
+
+    def walk(n, loops):
+        if isinstance(n, SCOPES) and n is not scope:
+            # nested scopes: a load there of an outer name counts as a load outside any loop (be conservative)
+            for x in ast.walk(n):
+                if isinstance(x, ast.Name) and isinstance(x.ctx, ast.Load):
+                    loads.setdefault(x.id, []).append(())
+            return
+        if isinstance(n, (ast.For, ast.AsyncFor)):
+            tn = {x.id for x in ast.walk(n.target) if isinstance(x, ast.Name)}
+            for t in tn:
+                for_stores[t] = for_stores.get(t, 0) + 1
+                stores[t] = stores.get(t, 0) + 1
+            walk(n.iter, loops)
+            for st in n.body + n.orelse:
+                walk(st, loops + [tn])
+            return
+        if isinstance(n, ast.Name):
+            if isinstance(n.ctx, ast.Load):
+                loads.setdefault(n.id, []).append(tuple(frozenset(l) for l in loops))
+            else:
+                stores[n.id] = stores.get(n.id, 0) + 1
+            return
+        for c in ast.iter_child_nodes(n):
+            walk(c, loops)
+
+    for st in scope.body:
+        walk(st, [])
+    params = {x.arg for x in ast.walk(scope.args) if isinstance(x, ast.arg)}
+    out = set()
+    for name, k in for_stores.items():
+        if name in params or stores.get(name, 0) != k:
+            continue
+        if all(any(name in l for l in ls) for ls in loads.get(name, [])):
+            out.add(name)
+    return out
+
+
 class _ScopedAlpha:
     """Scope-aware alpha-renaming.  ``rename(scope_index, position, old_name) -> new_name``."""
 
@@ -304,8 +348,31 @@ class _ScopedAlpha:
         self._scope(self.root, [])
         return self.root
 
+    def _loop_scope(self, loop, names, stack):
+        frame = {}
+        for n in sorted(names, key=lambda x: [y.id for y in ast.walk(loop.target) if isinstance(y, ast.Name)].index(x)):
+            cid = len(self.table)
+            self.table.append((self.serial, n))
+            frame[n] = self.namer(cid, n)
+        self.serial += 1
+        self._visit(loop.iter, stack)
+        inner = stack + [frame]
+        self._visit(loop.target, inner)
+        for st in loop.body + loop.orelse:
+            self._visit(st, inner)
+
     def _scope(self, scope, stack):
         names = _scope_bindings(scope)
+        ll = _loop_local_names(scope)
+        self.loop_local = getattr(self, "loop_local", [])
+        self.loop_local.append(ll)
+        names = [n for n in names if n not in ll]
+        try:
+            self._scope_inner(scope, stack, names)
+        finally:
+            self.loop_local.pop()
+
+    def _scope_inner(self, scope, stack, names):
         if scope is self.root and self.keep and hasattr(scope, "args"):
             a = scope.args
             params = {x.arg for x in list(a.posonlyargs) + list(a.args) + list(a.kwonlyargs) + ([a.vararg] if a.vararg else []) + ([a.kwarg] if a.kwarg else [])}
@@ -351,6 +418,11 @@ class _ScopedAlpha:
         if isinstance(n, SCOPES):
             self._scope(n, stack)
             return
+        if isinstance(n, (ast.For, ast.AsyncFor)) and getattr(self, "loop_local", None):
+            tn = {x.id for x in ast.walk(n.target) if isinstance(x, ast.Name)} & self.loop_local[-1]
+            if tn:
+                self._loop_scope(n, tn, stack)
+                return
         if isinstance(n, ast.Name):
             for fr in reversed(stack):
                 if n.id in fr:
@@ -380,6 +452,18 @@ def canon_map(fn: ast.AST):
     sa = _ScopedAlpha(fn2)
     sa.run(lambda cid, name: f"v{cid}")
     return norm(ast.fix_missing_locations(fn2)), [n for _, n in sa.table]
+
+
+def canon_ast(fn: ast.AST) -> ast.AST:
+    """The alpha-canonical copy of a function (see canon_map), as a tree."""
+    fn2 = copy.deepcopy(fn)
+    if isinstance(fn2, (ast.FunctionDef, ast.AsyncFunctionDef)):
+        fn2.decorator_list = []
+        fn2.returns = None
+        if fn2.body and isinstance(fn2.body[0], ast.Expr) and isinstance(fn2.body[0].value, ast.Constant) and isinstance(fn2.body[0].value.value, str):
+            fn2.body = fn2.body[1:] or [ast.Pass()]
+    _ScopedAlpha(fn2).run(lambda cid, name: f"v{cid}")
+    return ast.fix_missing_locations(fn2)
 
 
 def alpha_rename(fn: ast.AST, new_names: List[str]) -> None:
